@@ -63,6 +63,15 @@ type deliver2Args struct {
 	Ord int    `json:"ord"`
 }
 
+// deliverKArgs: Deliver whose sender-chosen key is variant V of the key of an object N already owns.
+type deliverKArgs struct {
+	Kind string `json:"kind"`
+	S    int    `json:"s"`
+	C    int    `json:"c"`
+	N    int    `json:"n"`
+	V    string `json:"v"`
+}
+
 // kindOf: the kind(s) whose objects the world has to hold ("k1+k2" for a two-message transaction; the batch
 // preparation has to precede the pool transfers, so a batch kind goes first).
 func kindOf(steps []drv.Step) string {
@@ -71,6 +80,12 @@ func kindOf(steps []drv.Step) string {
 			var a deliverArgs
 			if json.Unmarshal(s.Args, &a) == nil {
 				return a.Kind
+			}
+		}
+		if s.Act == "DeliverK" {
+			var a deliverKArgs
+			if json.Unmarshal(s.Args, &a) == nil {
+				return a.Kind + "#K"
 			}
 		}
 		if s.Act == "Deliver2" {
@@ -158,7 +173,7 @@ func runHistory(t *testing.T, em *drv.Emitter, h drv.History) {
 	_, idle := w.encode(in, q0, w.snap(false))
 	kinds := []string{}
 	if kind != "" {
-		kinds = strings.Split(kind, "+")
+		kinds = strings.Split(strings.TrimSuffix(kind, "#K"), "+")
 	}
 	em.Emit(map[string]any{"h": h.H, "i": 0, "act": "Init", "args": map[string]any{"kind": kind}, "kinds": kinds, "g": w.grantObs(), "prep": w.prepErr, "idle": idle,
 		"ncomp": len(compNames)})
@@ -243,6 +258,47 @@ func runHistory(t *testing.T, em *drv.Emitter, h drv.History) {
 			ev["gpost"] = w.grantObs()
 			ev["suspect"] = map[string]any{"A": w.suspects(pre, post, pA), "B": w.suspects(pre, post, pB)}
 			em.Emit(ev)
+		case "DeliverK":
+			var a deliverKArgs
+			if err := json.Unmarshal(stp.Args, &a); err != nil {
+				t.Fatal(err)
+			}
+			ev["args"] = a
+			ev["g"] = w.grantObs()
+			ev["via"] = "tx"
+			ev["key"] = ""
+			pre := w.snap(true)
+			var buildErr string
+			var msg sdk.Msg
+			func() {
+				defer func() {
+					if r := recover(); r != nil {
+						buildErr = fmt.Sprint(r)
+					}
+				}()
+				var key string
+				msg, key = w.buildK(a.Kind, a.S, a.C, a.N, a.V)
+				ev["key"] = key
+			}()
+			if buildErr != "" {
+				ev["cls"], ev["log"] = "build", firstLine(buildErr)
+			} else if tx, err := e.SignTxWith([]*env.Account{w.acc(a.S)}, msg); err != nil {
+				// a message the transaction builder itself refuses (e.g. an address it cannot parse) never reaches the chain
+				ev["cls"], ev["log"] = "unsignable", firstLine(err.Error())
+			} else {
+				r, err := e.RunTx(tx)
+				if err != nil {
+					blockFail(em, ev, err)
+					return
+				}
+				fill(ev, r)
+			}
+			post := w.snap(true)
+			obs, chg := w.encode(in, pre, post)
+			ev["obs"], ev["chg"] = obs, chg
+			ev["gpost"] = w.grantObs()
+			ev["suspect"] = map[string]any{"A": w.suspects(pre, post, pA), "B": w.suspects(pre, post, pB)}
+			em.Emit(ev)
 		case "Deliver2":
 			var a deliver2Args
 			if err := json.Unmarshal(stp.Args, &a); err != nil {
@@ -307,7 +363,7 @@ func blockFail(em *drv.Emitter, ev map[string]any, err error) {
 	if _, ok := ev["g"]; !ok {
 		ev["g"] = map[string]int{"ab": 0, "ba": 0}
 	}
-	if ev["act"] == "Deliver" || ev["act"] == "Deliver2" {
+	if ev["act"] == "Deliver" || ev["act"] == "Deliver2" || ev["act"] == "DeliverK" {
 		ev["obs"], ev["chg"], ev["suspect"], ev["gpost"] = map[string]any{}, []string{}, map[string]any{}, map[string]int{"ab": 0, "ba": 0}
 	}
 	em.Emit(ev)
